@@ -70,7 +70,10 @@ func HarnessC09EnvelopeLimit() {
 	if second { // the frame under test follows an accepted one
 		stream = append(stream, 0, 0, 0, 0, 1, 0x41)
 	}
-	stream = append(stream, 0)
+	// the flag byte is arbitrary: the limit applies to every envelope,
+	// whatever its flags say it is
+	flags := nondetByte("flags")
+	stream = append(stream, flags)
 	stream = append(stream, sz...)
 	stream = append(stream, present...)
 	codec := &spyCodec{}
@@ -103,6 +106,10 @@ func HarnessC09EnvelopeLimit() {
 	case len(present) < size:
 		check(err != nil, "fewer bytes than declared is an error, never a short message")
 		check(codec.calls == 0, "a short message never reaches the codec")
+	case flags != 0:
+		// a compressed or protocol-specific envelope within the limit: not a
+		// plain message (no compression pool here), judged by C04/C07
+		check(codec.calls == 0 || flags == 1, "only data envelopes reach the codec")
 	default:
 		check(err == nil, "a message within the limit is accepted")
 		if err == nil {
